@@ -156,7 +156,7 @@ def runG (io : GIO G) (te : Bool) (op : String) (args : List String) (impl : Str
       match ov with
       | .default => some (sO io m ++ " @" ++ bitsTag (bitsBE ls), vs impl want)
       | .glv c =>
-        let tag := if ls.length > c.nLimbs then "glv-toolong" else if value ls ≥ c.r then "glv-reduced" else "glv"
+        let tag := if ls.length > c.nLimbs then "glv-long" else if value ls ≥ c.r then "glv-reduced" else "glv"
         some (sO io m ++ " @" ++ tag, vsGlv io c P impl want)
   | "mulscalar.aff", [P, n, k] =>
     let P ← io.parse P; let n ← parseHex? n; let k ← parseHex? k
